@@ -451,7 +451,7 @@ fn check_try(ctx: &mut Ctx, t: IT, x: Dd) {
 fn x_for_type(ctx: &mut Ctx, t: IT) -> Dd {
     let c = ctx.weighted(&[10, 2, 1, 1]);
     if c == 1 {
-        return dd_exp(ctx, -1022, 1023, true);
+        return dd_all(ctx);
     }
     if c == 2 {
         ctx.label("x:far-out-of-range");
@@ -535,7 +535,7 @@ fn c09_floats(ctx: &mut Ctx) {
             let pool = nonfinite_pool();
             pool[ctx.below(pool.len() as u64) as usize].1
         }
-        1 => dd_exp(ctx, -1022, 1023, true),
+        1 => dd_all(ctx),
         _ => {
             // high word placed relative to the f32 grid: exactly representable, exactly at a
             // midpoint between two f32 values (a tie of the f64 -> f32 rounding), one f64 ulp
